@@ -151,11 +151,13 @@ Print Assumptions C08_delete_put_chars_exec.
 
 (* ---------- C08_utf8 (full for the modelled command set) ---------- *)
 (* every program of modelled commands (motions, d y c < > g~ gu gU with any motion or doubled, x X D C s S Y ~,
-   p P, J, r, i a I A o O with the insert-mode keys ^H DEL ^U ^W ^T ^D and newline) maps a state whose buffer
+   p P, J, r, i a I A o O with the insert-mode keys ^H DEL ^U ^W ^T ^D ^P ^R<reg> ^V<key> and newline) maps a state whose buffer
    lines are lists of encoded scalar values and whose registers hold valid UTF-8, together with typed text
    and replacement characters that are encoded scalar values, to such a state again; hence the bytes of
    every line and of every register are valid UTF-8 (UcSpec.valid, the C16 notion).  No well-formedness
-   of the lines is needed.  Not covered (not modelled): ^V (raw bytes by design), ^K ^P ^R, the ! filter *)
+   of the lines is needed.  The key after ^V is assumed to be an encoded scalar value like all typed text
+   (^V followed by an arbitrary byte inserts raw bytes by design: the C16 exception).  Not covered (not
+   modelled): ^K, the ! filter *)
 Theorem C08_utf8 : forall rows cs e e', est_valid e -> Forall cmd_valid cs -> exec rows cs e = Some e' ->
   est_valid e' /\ Forall (fun l => valid (flat l)) (s_buf e') /\
   (forall c t ln, reg_get (s_regs e') c = Some (t, ln) -> valid t).
@@ -244,7 +246,7 @@ Theorem C08_refines_put_lines_partial : forall rows e y cnt after ls l0,
   v_off (s_vs e1) = ren_noeol (getl (s_buf e1) r') (lbuf_indents (s_buf e1) r').
 Proof. exact refines_put_lines. Qed.
 Print Assumptions C08_refines_put_lines_partial.
-(* i / a typing plain text (no editing key, no newline) that contains a non-blank: exactly that text is inserted before
+(* i / a typing plain text (none of ^H DEL ^U ^W ^T ^D ^V ^R ^P, no newline) that contains a non-blank: exactly that text is inserted before
    (i) / after (a, unless the line is empty) the cursor character -- whatever the autoindent split of the line's
    leading blanks -- and the cursor lands on its last character *)
 Theorem C08_refines_insert_plain_partial : forall rows e (append : bool) typed e1 body,
